@@ -22,6 +22,9 @@ MaxOf(n) == IF Signed(n) THEN Shr(Ones, 65 - WidthOf(n)) ELSE TruncBits(Ones, Wi
 RawVals(n) ==
   IF ValueSet = "small"
   THEN {Zero, One, Ones, MinOf(n), MaxOf(n), W(3), W(WidthOf(n) - 1)}
+  ELSE IF ValueSet = "medium"
+  THEN {Zero, One, W(2), W(7), Ones, MinOf(n), Add(MinOf(n), One), MaxOf(n), Sub(MaxOf(n), One),
+        Shl(One, WidthOf(n) \div 2), W(WidthOf(n) - 1), Neg(W(100))}
   ELSE {Zero, One, W(2), W(3), W(7), Ones, MinOf(n), Add(MinOf(n), One), MaxOf(n), Sub(MaxOf(n), One),
         Shl(One, WidthOf(n) \div 2), Sub(Shl(One, WidthOf(n) \div 2), One), W(WidthOf(n) - 1), W(WidthOf(n)), W(100), Neg(W(100))}
 Vals(n) == IF n = "bool" THEN {Zero, One} ELSE {Canon(n, w) : w \in RawVals(n)}
@@ -42,7 +45,7 @@ UnCase(op, t, a) ==
 (* ---- floating point (the integral, exactly representable values CSem models) ---- *)
 FTypes == {"float", "double"}
 FT(n) == [k |-> "f", n |-> n]
-FMags == IF ValueSet = "small"
+FMags == IF ValueSet \in {"small", "medium"}
          THEN {Zero, One, W(3), W(128), W(255), W(256), W(65535), W(65536), Shl(One, 24), Sub(Shl(One, 31), One), Shl(One, 31), Sub(Shl(One, 32), One),
                Shl(One, 32), Shl(One, 53), Shl(One, 63), Sub(Ones, W(2047))}
          ELSE {Zero, One, W(2), W(3), W(100), W(127), W(128), W(129), W(255), W(256), W(32767), W(32768), W(65535), W(65536), Sub(Shl(One, 24), One), Shl(One, 24),
